@@ -23,7 +23,7 @@ NAN = float("nan")
 
 
 def build(ctx, n, order, own_val, module="pandapower.contingency.contingency", fname="_update_contingency_results", parallel=False,
-          agg_order=None, with_bus=True):
+          agg_order=None, with_bus=True, nan_entries=()):
     """runs the real aggregation for the case list `order`; returns (contingency_results, L, lim, VM)"""
     cont = ctx.load(module)
     upd = getattr(cont, fname)
@@ -42,6 +42,8 @@ def build(ctx, n, order, own_val, module="pandapower.contingency.contingency", f
         for e in range(n):
             if e == case:
                 vals.append(own_val)
+            elif (case, e) in nan_entries:
+                vals.append(NAN)          # the outage islands this (in-service) element: no result in this case
             else:
                 L[(case, e)] = ctx.var(f"load_c{case}_e{e}", 0., 200.)
                 vals.append(L[(case, e)])
@@ -95,19 +97,19 @@ def _is_min(ctx, name, got, cands):
 def obligations(ctx, n, order, cr, L, lim, VM, n0, vm0):
     mx, mn = cr["line"]["max_loading_percent"], cr["line"]["min_loading_percent"]
     for e in range(n):
-        cands = [L[(c, e)] for c in order if c != e]
+        cands = [L[(c, e)] for c in order if (c, e) in L]
         _is_max(ctx, f"max_loading_e{e}", mx[e], cands)
         _is_min(ctx, f"min_loading_e{e}", mn[e], cands)
         if cands:
             ci = int(cr["line"]["cause_index"][e])
-            ok = ci in order and ci != e
+            ok = (ci, e) in L
             ctx.true(f"cause_index_e{e}/names_a_case_of_the_list", ok)
             if ok:
                 ctx.true(f"cause_index_e{e}/produces_the_reported_max", L[(ci, e)] == mx[e])
                 ctx.true(f"cause_element_e{e}", cr["line"]["cause_element"][e] == "line")
         ctx.eq(f"n0_loading_e{e}", cr["line"]["loading_percent"][e], n0[e])
     for c in range(n):
-        want = any_of([L[(c, e)] > lim[e] for e in range(n) if e != c]) if c in order else False
+        want = any_of([L[(c, e)] > lim[e] for e in range(n) if (c, e) in L]) if c in order else False
         got = bool(cr["line"]["causes_overloading"][c])
         ctx.true(f"causes_overloading_c{c}", (want == got) if issym(want) else (bool(want) == got))
     if "max_vm_pu" in cr["bus"]:
@@ -116,9 +118,9 @@ def obligations(ctx, n, order, cr, L, lim, VM, n0, vm0):
         ctx.eq("n0_vm", cr["bus"]["vm_pu"][0], vm0)
 
 
-def make_fn(n, order, own_val, with_bus=True):
+def make_fn(n, order, own_val, with_bus=True, nan_entries=()):
     def fn(ctx):
-        cr, L, lim, VM, n0, vm0 = build(ctx, n, order, own_val, with_bus=with_bus)
+        cr, L, lim, VM, n0, vm0 = build(ctx, n, order, own_val, with_bus=with_bus, nan_entries=nan_entries)
         obligations(ctx, n, order, cr, L, lim, VM, n0, vm0)
     return fn
 
@@ -135,6 +137,16 @@ def instances(tier):
             wb = len(order) < 3 or tier == "thorough"
             out.append(Inst(f"lines{n}_order{''.join(map(str, order))}_{tag}", make_fn(n, order, own, wb), nvars=26, samples=2, max_paths=40000,
                             meta=dict(lines=n, case_order=order, own_outage_entry=tag, with_bus=wb)))
+    # an outage that islands another in-service element: that element has a NaN result in that case
+    isl = [((0, 1), {(1, 2)}), ((1, 0), {(1, 2)}), ((0, 1, 2), {(2, 1)}), ((2, 0, 1), {(2, 1)})]
+    if tier == "thorough":
+        isl += [(o, {(o[k], (o[k] + 1) % n)}) for o in orders if len(o) >= 2 for k in range(len(o))]
+    for order, nans in isl:
+        for own, tag in ((0.0, "own0"), (NAN, "ownNaN")):
+            wb = len(order) < 3
+            nm = f"lines{n}_order{''.join(map(str, order))}_{tag}_islands{'_'.join(f'{c}{e}' for c, e in sorted(nans))}"
+            out.append(Inst(nm, make_fn(n, order, own, wb, frozenset(nans)), nvars=26, samples=2, max_paths=40000,
+                            meta=dict(lines=n, case_order=order, own_outage_entry=tag, with_bus=wb, nan_results=sorted(nans))))
     return out
 
 
